@@ -68,6 +68,9 @@ HeightsOK(start, cap, n, hs) ==
 \* The canonical rolling expiry
 
 ExpiryHeight(h) == SatAdd(Floor(h, ExpMod), ExpWin)
+\* the height-independent test: could e be the canonical expiry of SOME height (one whole window
+\* above the bottom, on the modulus)
+CanonicalExpiryValue(e) == IsBoundary(e, ExpMod) /\ e >= Lo + ExpWin
 
 ---------------------------------------------------------------------------------
 \* Shuffles
@@ -242,6 +245,12 @@ FirstInfeasible(tr) == tr[CHOOSE i \in 1..Len(tr) : Infeasible(tr[i]) /\ \A j \i
 \* Lemire index (w * bound) >> 64, rejected iff (w * bound) mod 2^64 < 2^64 mod bound; the age
 \* 1 + (number of trailing zero bits), a zero word continuing into the next word.
 \*   chacha  : acceptable everywhere (an acceptable draw has probability >= 1/2 resp. 1 - 1/e).
+\*   lemire  : words ceil(j 2^64 / b), b in 2..9 and j < b chosen at random: such a word is in the
+\*             index sampler's rejection zone when the bound is b, has >= 61 trailing zeros (age > cap)
+\*             when b is a power of two, and is otherwise generic; j = 0 is the zero word; acceptable
+\*             everywhere (an acceptable draw has probability >= 1/9).
+\*   ages    : words 2^(a-1), a uniform in 1..8 at random: age a; index 0 and raw delay 0 (accepted);
+\*             acceptable everywhere (age 1 has probability 1/8).
 \*   zero    : u = 1, raw delay 0 (accepted); index: low = 0 is rejected unless bound is a power
 \*             of two; age: never returns.
 \*   ones    : u = 2^-53, raw delay round(36.74 mean) (accepted iff <= cap); index bound - 1
@@ -251,9 +260,9 @@ FirstInfeasible(tr) == tr[CHOOSE i \in 1..Len(tr) : Infeasible(tr[i]) /\ \A j \i
 \*   counter : words 0, 1, 2, ..: u = 1, raw delay 0; index: word 0 may be rejected, every word
 \*             k >= 1 has low = k * bound >= bound (accepted); ages 65, 65, 2, 1 within four words.
 IsPow2(n) == n \in {1, 2, 4, 8, 16, 32, 64}
-DelayMustTerminate(rng, mean, cap) == rng \in {"chacha", "zero", "alt", "counter"} \/ (rng = "ones" /\ cap >= 37 * mean)
-ShuffleMustTerminate(rng, n)       == rng \in {"chacha", "ones", "alt", "counter"} \/ (rng = "zero" /\ n <= 2)
-AnchorMustTerminate(rng, cands)    == rng \in {"chacha", "ones", "alt", "counter"} \/ (rng = "zero" /\ cands = {})
-WakeupsMustTerminate(rng, jcap)    == rng \in {"chacha", "ones", "alt", "counter"} \/ (rng = "zero" /\ jcap = 0)
+DelayMustTerminate(rng, mean, cap) == rng \in {"chacha", "lemire", "ages", "zero", "alt", "counter"} \/ (rng = "ones" /\ cap >= 37 * mean)
+ShuffleMustTerminate(rng, n)       == rng \in {"chacha", "lemire", "ages", "ones", "alt", "counter"} \/ (rng = "zero" /\ n <= 2)
+AnchorMustTerminate(rng, cands)    == rng \in {"chacha", "lemire", "ages", "ones", "alt", "counter"} \/ (rng = "zero" /\ cands = {})
+WakeupsMustTerminate(rng, jcap)    == rng \in {"chacha", "lemire", "ages", "ones", "alt", "counter"} \/ (rng = "zero" /\ jcap = 0)
 
 =================================================================================
